@@ -8,6 +8,7 @@ For an estimator class C with constructor parameters P (read off __init__):
       `hasattr(self, 'x')` counts as a read of x
   F4  every return statement of fit returns self
   F5  predict-like methods never assign an attribute of self
+  F6  predict-like methods read only constructor parameters and attributes that some fit-like method assigns (no private caches that survive a refit)
 The analysis is conservative: writes inside branches/loops are only *possible* writes (they do not license a later read), reads anywhere
 count.  A reported effect is a failed obligation; the ones that are genuine, known defects of the tree carry the key of known_findings.json,
 any other effect gets its own key (class, condition, attribute) and is a new violation.
@@ -90,6 +91,10 @@ def analyse_method(src, cls, mname, helpers, eff=None, seen=None, top=True, writ
                 a = n.attr
                 if a not in written and not is_method(a) and not (a.startswith("__") and a.endswith("__")):
                     eff.reads_before_write.append((a, n.lineno))
+                if a in ms and a not in seen:
+                    # a bound method that is only REFERENCED here (e.g. stored in a variable and called later): its effects are possible effects of this call -
+                    # reads and parameter calls count, its writes do not license later reads
+                    analyse_method(src, cls, a, helpers, eff, seen, top=False, written=set(written))
             if isinstance(n, ast.Call):
                 f = n.func
                 if isinstance(f, ast.Name) and f.id in ("hasattr", "getattr") and len(n.args) >= 2 and isinstance(n.args[0], ast.Name) \
@@ -201,8 +206,12 @@ def analyse_method(src, cls, mname, helpers, eff=None, seen=None, top=True, writ
     return eff, written
 
 
-def report(rep, label="P"):
+def report(rep, label="P", classes=None, conditions=None):
+    """classes / conditions restrict the report (used by the checks of other properties: e.g. C09 asks for F5/F6 of GridSearch only); keys of violations
+    carry the property id of the asking check unless they are one of C19's recorded findings"""
     for (relpath, cls, fit_methods, helpers) in ESTIMATORS:
+        if classes is not None and cls not in classes:
+            continue
         fnbase = f"{relpath}::{cls}"
         try:
             src = Source.load(relpath)
@@ -214,6 +223,8 @@ def report(rep, label="P"):
 
         def emit(name, bad, cond, what_of):
             full = f"{cls}.{name}"
+            if conditions is not None and cond not in conditions:
+                return
             if not bad:
                 rep.add_obligation(full, fnbase, "discharged", "ast-effects", 0.0, label)
                 return
@@ -221,7 +232,7 @@ def report(rep, label="P"):
             groups = {}
             for item in bad:
                 attr = item[0]
-                key = KNOWN_KEYS.get((cls, cond, attr)) or f"C19:{cls}.{name}:{attr}"
+                key = (KNOWN_KEYS.get((cls, cond, attr)) if rep.pid == "C19" else None) or f"{rep.pid}:{cls}.{name}:{attr}"
                 groups.setdefault(key, []).append(item)
             for key, items in groups.items():
                 confirmed, info = None, None
@@ -250,10 +261,22 @@ def report(rep, label="P"):
             emit(f"{m}.F4_returns_self", f4, "F4", lambda items: f"{cls}.{m} returns {sorted({i[0] for i in items})} instead of self (lines {sorted({i[1] for i in items})})")
             if not eff.returns:
                 emit(f"{m}.F4_has_return_self", [("<no return>", ms[m].lineno)], "F4", lambda items: f"{cls}.{m} has no return statement (returns None)")
+        # what a fit may leave behind: every attribute some fit-like method (or a self-method it calls) assigns, plus what sklearn's validate_data sets
+        fit_state = {"n_features_in_", "feature_names_in_"}
+        for m in list(fit_methods) + ["partial_fit", "_AdversarialFairness__setup", "__setup"]:
+            if m in ms:
+                e2, _ = analyse_method(src, cls, m, helpers)
+                fit_state |= {a for a, _, _ in e2.writes}
+        class_level = {t.id for st_ in src.classes[cls].body if isinstance(st_, ast.Assign) for t in st_.targets if isinstance(t, ast.Name)}
         for m in PREDICT_LIKE:
             if m not in ms:
                 continue
             eff, _ = analyse_method(src, cls, m, helpers)
+            # F6: prediction reads only constructor parameters and state that fit defines - an attribute that only prediction itself writes (a cache) survives a refit
+            f6 = sorted({(a, l) for a, l in eff.reads_before_write if a not in params and a not in fit_state and a not in class_level and a not in ms
+                         and not a.startswith("__")})
+            emit(f"{m}.F6_prediction_reads_only_parameters_and_state_defined_by_fit", f6, "F6",
+                 lambda items: f"{cls}.{m} reads attribute(s) {sorted({i[0] for i in items})} that no fit defines (lines {sorted({i[1] for i in items})}): state of an earlier prediction / fit survives a refit")
             f5 = sorted({(a, l) for a, l, _ in eff.writes})
             emit(f"{m}.F5_prediction_does_not_write_state", f5, "F5",
                  lambda items: f"{cls}.{m} assigns attribute(s) {sorted({i[0] for i in items})} (lines {sorted({i[1] for i in items})})")
